@@ -50,6 +50,9 @@ type VerifLayout struct {
 	MemTables    int // including the active one
 	SeqNum       uint64
 	LatestSeqNum uint64
+	// Pin keeps the described level list (and so its table files) alive while
+	// the harness compares the description with the file system.
+	Pin any
 }
 
 func (db *DB) VerifLayout() VerifLayout {
@@ -59,5 +62,6 @@ func (db *DB) VerifLayout() VerifLayout {
 		MemTables:    len(db.mtables.Sealed()) + 1,
 		SeqNum:       db.seqNum,
 		LatestSeqNum: ll.LatestSeqNum,
+		Pin:          ll,
 	}
 }
